@@ -1148,6 +1148,24 @@ where
         me.counts.has_streams()
     }
 
+    /// Verification hook: a read-only text snapshot of the stream store, the
+    /// counters, the flow-control state and the sizes of the buffers.
+    #[cfg(feature = "verif-hooks")]
+    pub fn verif_snapshot(&self) -> crate::verif::StreamsSnapshot {
+        let me = self.inner.lock().unwrap();
+        let send_buffer = self.send_buffer.inner.lock().unwrap();
+        crate::verif::StreamsSnapshot {
+            streams: me.store.verif_dump(),
+            counts: format!("{:?}", me.counts),
+            recv: format!("{:?}", me.actions.recv),
+            send: format!("{:?}", me.actions.send),
+            conn_error: format!("{:?}", me.actions.conn_error),
+            refs: me.refs,
+            recv_buffered: me.actions.recv.verif_buffered(),
+            send_buffered: send_buffer.verif_len(),
+        }
+    }
+
     pub fn has_streams_or_other_references(&self) -> bool {
         let me = self.inner.lock().unwrap();
         me.counts.has_streams() || me.refs > 1
